@@ -48,6 +48,33 @@ def run(p):
         d, b = S.joins(10.0, 20.0, 10.0 + de * 5, 20.0 + dn * 5)
         p.case('bearing_axes', [de, dn])
         p.check(abs(b - brg) < 1e-12 and abs(d - 5) < 1e-12, 'bearing-axes', 'bearing_axes', [de, dn], [d, b], [5, brg])
+    # 1b. the polar/rectangular pair observed directly (geodepy.convert.polar2rect / rect2polar): same convention, inverse of
+    #     each other, bearings given as numbers or as angle objects
+    import geodepy.convert as CVT
+    import geodepy.angles as ANG
+    for _ in range(p.n(600, 20000)):
+        d = 10 ** rng.uniform(-3, 7)
+        b = rng.choice([0.0, 90.0, 180.0, 270.0, rng.uniform(0, 360), rng.uniform(0, 360), float(rng.randint(0, 359))])
+        inp = [d, b]
+        p.case('polar_rect', inp)
+        ok, r = p.guarded('polar2rect-raises', 'polar_rect', inp, lambda: CVT.polar2rect(d, b), f'polar2rect({d!r}, {b!r})')
+        if not ok:
+            continue
+        x, y = r
+        ex, ey = d * math.sin(math.radians(b)), d * math.cos(math.radians(b))
+        p.check(abs(x - ex) <= 1e-12 * d and abs(y - ey) <= 1e-12 * d, 'rotation-scale', 'polar_rect', inp, [x, y], [ex, ey],
+                f'polar2rect({d!r}, {b!r})')
+        d2, b2 = CVT.rect2polar(x, y)
+        db = min(abs(b2 - b), 360 - abs(b2 - b))
+        p.check(0 <= b2 < 360 and abs(d2 - d) <= 1e-9 * d and db <= 1e-9 * 57.3 + 1e-12, 'join-radiate-inverse', 'polar_rect', inp,
+                [d2, b2], [d, b], f'rect2polar(*polar2rect({d!r}, {b!r}))')
+        for cls, mk in (('DMS', ANG.dec2dms), ('DDM', ANG.dec2ddm), ('HP', ANG.dec2hpa), ('DEC', ANG.DECAngle)):
+            if rng.random() < 0.3:
+                a = mk(b)
+                xa, ya = CVT.polar2rect(d, a)
+                exa = (d * math.sin(math.radians(a.dec())), d * math.cos(math.radians(a.dec())))
+                p.check(abs(xa - exa[0]) <= 1e-12 * d and abs(ya - exa[1]) <= 1e-12 * d, 'rotation-scale', 'polar_rect', inp + [cls],
+                        [xa, ya], list(exa), f'polar2rect({d!r}, {cls} object of {b!r})')
     # 2. rotation and scale arguments
     for _ in range(p.n(800, 30000)):
         e, n = rng.uniform(-1e6, 1e6), rng.uniform(-1e6, 1e6)
